@@ -747,6 +747,8 @@ def gen_run(seed, params):
                      'sels': [], 'leaves': [geom(e) for e in leaves],
                      'graded': (not twin) and graded}
     n_ops = rng.randint(3, params.get('max_ops', 10))
+    if rng.random() < params.get('p_long', 0.03):
+        n_ops = rng.randint(20, 40)  # state accumulating over many calls
     workers_session = rng.randint(1, 16)
     dead = set()
     if lookalike:
